@@ -203,7 +203,12 @@ impl Wal {
 
 		// Parse the record type from header byte 6
 		let record_type_byte = header[6];
-		let record_type = RecordType::from_u8(record_type_byte)?;
+		// A damaged first header is not this function's business: opening the
+		// log must not fail on it, recovery reports and repairs it when it reads
+		// the segment.
+		let Ok(record_type) = RecordType::from_u8(record_type_byte) else {
+			return Ok(CompressionType::None);
+		};
 
 		if record_type == RecordType::SetCompressionType {
 			// Read the compression type byte (length is in bytes 4-5)
@@ -211,7 +216,8 @@ impl Wal {
 			if length >= 1 {
 				let mut compression_byte = [0u8; 1];
 				file.read_exact(&mut compression_byte)?;
-				return CompressionType::from_u8(compression_byte[0]);
+				return Ok(CompressionType::from_u8(compression_byte[0])
+					.unwrap_or(CompressionType::None));
 			}
 		}
 
